@@ -428,6 +428,31 @@ ADDENDA.update({
         "items, slices and views.",
 })
 
+GAP_ROUND = {
+ "C01": "Gap round (C01Gap, C01GapSmooth): n-d/3-d Cartesian operators and the cylindrical gradient, vector gradient, tensor divergence and vector-Laplacian components with explicit remainders; uniform C h^2 bounds including the axis cells for all fields regular at the axis; a `bound` leg keeps the real kernels below the proved constants.",
+ "C02": "Gap round (C02b): the defining equation of every face after the full setter for the face list generated from a grid (setBoundaries, any number of axes), order independence and linked values, tied by c02.ghost2 / c02.linked.",
+ "C03": "Gap round (C03b, C03c, C18b): compiled chained setter = interpreted setter, the aliasing contract of out= (found and repaired: field.laplace(bc, out=field) computed in place), matrix route = stencil after the ghost-cell setter for every grid class.",
+ "C04": "Gap round (C04Proc): interleavings of cached calls on any number of objects and PDE._cache as a one-slot cache per backend (solve histories), tied by c04.replay_proc. Theorem counts no longer include auto-generated structure lemmas.",
+ "C05": "Gap round (C05d): whole solver runs (Euler, RK4, implicit, Crank-Nicolson through the controller loop) keep the volume-weighted sum on every grid class and for two coupled fields, tied by c05.run against real simulations.",
+ "C06": "Gap round (C06Gen): every step depends on the rate only at its stage times (tied to the recorded stage times of the real steppers), adaptive end time in any arithmetic, termination of the adaptive loops, loops over any field.",
+ "C07": "Gap round (C07Heap): heap model of Controller.run - the caller's state object is untouched on every path and the heap run refines the value-level run; the whole statement for all schedule kinds on the function the driver evaluates; law-free statements valid at Float.",
+ "C08": "Gap round (C08b): frame count floor(T/D)+1 iff no scheduled time in the sliver, a time at t_end is served iff t_final != t_end - eps dt, model of the adaptive stepper (never early, at most dt_min late, exactly once; tied by c08.adaptive); the dt_min lateness is a listed finding judged literally.",
+ "C09": "Later rounds: re-used schedule objects are modelled and proved (logarithmic_schedule_reused); Props/C09Round.lean proves the `up to round-off` clause for the constant and logarithmic schedules in the standard rounding model (every operation rounded; exact as soon as the period is not absorbed).",
+ "C10": "Gap round (C10b): time as a parameter of the right-hand side, {values} operators, compositional semantics of right-hand sides with operator calls.",
+ "C11": "Gap round (C11b): diff is the derivative on the rational fragment (dual numbers / Polynomial.derivative), checkSignature accepts exactly the well-formed calls, user functions are inlined bodies, indexed variables.",
+ "C12": "Gap round (C12b): the constructors are modelled (which grid every call creates or which error), centres and dx from the arguments, contains_point iff the cell index is in range (found and repaired: reversed bounds_z accepted by CylindricalSymGrid).",
+ "C13": "Gap round (C13b): per-field and per-component variances of collections, N-step sums with drift and Milstein correction, one draw per step in order (runGen).",
+ "C14": "Gap round (C14b): instance model with the attribute cache - every restored instance is coherent and equals a fresh construction; axes names; tied by c14.instance.",
+ "C15": "Gap round (C15b): values of arithmetic results, in-place operations, negation and copies of fields and collections.",
+ "C16": "Gap round (C16Gap): ghost cells as a function of the imposed condition on every face in 1-3 axes (padFull), interpolate_to_grid, theorems at the real eps, ghost-mode inserter on 3 axes; tied by c16.pad / c16.togrid.",
+ "C17": "Later rounds (C17Coll): extract_subfield for fields and collections is modelled and proved (ghost cells of every member of a sub-collection are the cells of the base padded array), tied by c17.subcoll, plus a model-free monitor.",
+ "C18": "Gap round (C18b): matvec of the assembled row + constant = the documented stencil on the array after the ghost-cell setter, for every grid class, all rows incl. r_min = 0 and the inner boundary.",
+ "C19": "Gap round (C19Gap, C19Jac): component order of the operators for polar and spherical grids, vector-gradient commutation (polar), bipolar / bispherical Jacobians are the derivatives of pos_to_cart.",
+ "C20": "Gap round (C20Coll): from_collection end to end, extract_time_range on unsorted times, world-level slice and view observations.",
+}
+for _k, _v in GAP_ROUND.items():
+    ADDENDA[_k] = (ADDENDA.get(_k, "") + " " + _v).strip()
+
 # properties not (yet) decided by the machinery
 NOT_APPLICABLE = {}
 
